@@ -96,6 +96,21 @@ def spec_when(tier, strats, primary):
         scen_keys=["strat", "form", "outs"], trace_timeout=1500)
 
 
+def spec_strand(tier, primary="C07"):
+    grid = [{"subs": "11", "workers": w, "stop": st} for w in ("1", "2") for st in ("none", "stop", "hard")]
+    grid += [{"subs": "11", "workers": "1", "weak": "1"}, {"subs": "21", "workers": "1", "stop": "none"},
+             {"subs": "21", "workers": "2", "stop": "hard"}, {"subs": "2", "workers": "1", "stop": "stop"}]
+    rand = [{"subs": "22", "workers": "2", "stop": "stop"}, {"subs": "111", "workers": "2", "stop": "hard"},
+            {"subs": "21", "workers": "2", "stop": "stop", "weak": "1"}]
+    return ConcSpec(
+        name="Strand", scenario="st", grid=grid,
+        inv_props=dict(OWN_INVS, **dict(RACE_INVS, BalancedAtQuiescence="C03", DropOnlyWhenRefused="C05",
+                                        AbsDropOnlyAfterStop="C05")), primary=primary,
+        mc_cfgs=[("Strand_MC.cfg", 8, 900, "Strand: 2 submitters x 1-2 jobs, 1-2 workers, stop/hard stop anywhere, weak CAS failures")],
+        paths_cfg=None, dfs_max=2500, preempt=2 if tier == "quick" else 3,
+        rand_execs=150 if tier == "quick" else 2000, rand_grid=rand, trace_timeout=1500)
+
+
 # ------------------------------------------------------------------------------------------------ checks
 
 @check("C01")
@@ -138,9 +153,18 @@ def c10(rep, tier, seed):
     rep.assumptions += ["unique inputs; static and dynamic forms; n = 2 with all schedules up to the preemption bound, n = 3 random"]
 
 
+@check("C07")
+def c07(rep, tier, seed):
+    """Strand: one job at a time, in submission order, none lost (Strand.tla)"""
+    run_conc(rep, spec_strand(tier), tier, seed, {"C07"})
+    rep.assumptions += ["the underlying executor is the harness' VerifPool (no visible operations of its own); strand over "
+                        "strand and the real FairThreadPool underneath are not part of the quick tier"]
+
+
 def all_conc_specs(tier):
     """every concurrent specification that carries ownership ghost state and a MemModel instance"""
-    return [spec_unique(tier), spec_shared(tier), spec_wait(tier), spec_when(tier, ALL_STRATS + ANY_STRATS, "C09")]
+    return [spec_unique(tier), spec_shared(tier), spec_wait(tier), spec_when(tier, ALL_STRATS + ANY_STRATS, "C09"),
+            spec_strand(tier)]
 
 
 @check("C03")
@@ -187,8 +211,12 @@ def c05(rep, tier, seed):
     if tier == "thorough":
         cfgs.append(("Pipeline_C05_thorough.cfg", "programs of length <= 3 x rejection point k in {0,1,2,never}"))
     seq.check_pipeline(rep, cfgs, {"C05"}, tier, crash_key=_inner_task_key)
-    rep.assumptions += ["instrumented inline executors decide Call/Drop; concurrent Stop/Submit interleavings are covered "
-                        "by the Strand and FairThreadPool specifications"]
+    # concurrent part: interleavings of Stop with Submit on the real Strand (Called xor Dropped, Drop only after refusal)
+    sp = spec_strand(tier, primary="C05")
+    sp.mc_cfgs = []  # the model itself is checked by C07; here the code is validated against it
+    run_conc(rep, sp, tier, seed, {"C05"})
+    rep.assumptions += ["sequential part: instrumented inline executors decide Call/Drop; concurrent part: Strand over the "
+                        "harness pool with Stop / HardStop at any point (Strand.tla)"]
 
 
 @check("C12")
